@@ -1,16 +1,44 @@
 (* C03 — filters mean exactly the documented conjunction, evaluated on the metric name. *)
-From CRNG Require Import Base.ListX Base.Bytes Lib.Regex Model.Matcher Model.Table Proofs.MatcherProofs Proofs.TableProofs.
+From CRNG Require Import Base.ListX Base.Bytes Lib.Regex Model.Matcher Model.Table Proofs.MatcherProofs Proofs.PrefixSound Proofs.TableProofs.
 
 (* Match = the conjunction of the six documented tests, for every regex oracle
-   for which the static prefix derived from the pattern text is sound (that
-   hypothesis is what the per-run differential check validates against Go's
-   regexp; see DESIGN.md for why it is stated rather than proved for all ASTs) *)
+   for which the static prefix derived from the pattern text is sound.  The
+   hypothesis is discharged below (C03_match_is_conjunction) for the regex engine
+   and every regex passing the boolean check prefix_ok, which the run evaluates
+   for every generated regex. *)
 Theorem C03_match_is_conjunction_given_sound_prefix :
   forall (search : rx -> bytes -> bool) m s,
     opt_sound search (m_regex m) -> opt_sound search (m_notRegex m) ->
     matcher_match search m s = spec_accept search m s.
 Proof. exact match_is_conjunction. Qed.
 Print Assumptions C03_match_is_conjunction_given_sound_prefix.
+
+(* Every string that an anchored regex matches starts with the literal prefix read off its syntax tree
+   (literals, \., groups; one-or-more and counted repetitions contribute the prefix of their body, anything
+   optional or alternative ends it) — by induction over the syntax tree, for the backtracking engine. *)
+Theorem C03_ast_prefix_sound :
+  forall r s, re_search r s = true -> has_prefix (ast_prefix r) s = true.
+Proof. exact ast_prefix_sound. Qed.
+Print Assumptions C03_ast_prefix_sound.
+
+(* hence the prefix that regexToPrefix scans from the pattern text is sound whenever it is an initial part of
+   the tree's prefix (prefix_ok, a boolean the run evaluates for every regex it generates) ... *)
+Theorem C03_text_prefix_sound :
+  forall r, prefix_ok r = true ->
+    forall s, rx_search r s = true -> has_prefix (regex_to_prefix (rx_src r)) s = true.
+Proof. exact text_prefix_sound. Qed.
+Print Assumptions C03_text_prefix_sound.
+
+(* ... and Match is exactly the documented conjunction, with no hypothesis left but that boolean *)
+Theorem C03_match_is_conjunction :
+  forall m s, opt_prefix_ok (m_regex m) = true -> opt_prefix_ok (m_notRegex m) = true ->
+    matcher_match rx_search m s = spec_accept rx_search m s.
+Proof.
+  intros m s H1 H2. apply match_is_conjunction.
+  - destruct (m_regex m) as [r|]; [|exact I]. intros x Hx. apply text_prefix_sound; assumption.
+  - destruct (m_notRegex m) as [r|]; [|exact I]. intros x Hx. apply text_prefix_sound; assumption.
+Qed.
+Print Assumptions C03_match_is_conjunction.
 
 (* pre-matching never rejects a name the filter accepts *)
 Theorem C03_prematch_necessary :
